@@ -13,7 +13,8 @@ from ..runner import CaseResult, digest
 
 ID = "C11"
 ATOMS = ["a", "Bc", ":k", "?x", "-", "1.5", "<="]
-ODD_ATOMS = ["x^2", "#t", "p@q", "a,b", "k|", "[i]", "$v", "!n", "~", "a&b", "50%", '"s"', "it's", "{z}", "\\e", "^"]
+ODD_ATOMS = ["x^2", "#t", "p@q", "a,b", "k|", "[i]", "$v", "!n", "~", "a&b", "50%", '"s"', "it's", "{z}", "\\e", "^",
+             "\u00c9cole", "\u00c4RGER", "\u03a9mega", "\u0414\u041e\u041c"]  # letters outside ASCII have a case too
 GAPS = [" ", "  ", "\t", "\n", "\r\n", "", " ;c\n", ";(x) ;y\n", "\n; only (comment\n", " \t \n", "\r",
         " ;p\x0c(q\x0b)r\x1c s\x85t\u2028u\n"]  # a comment ends at the line feed, not at a form feed / VT / NEL / LS inside it
 SMALL_GAPS = [" ", "\t", "\n", " ;c\n", "", "\r\n", "\r"]
@@ -28,7 +29,7 @@ RULE = ("all ordered token trees (root a list) with <= N nodes; leaves labelled 
         "entry points (quick: file entry for <= 1 deviation; deviations beyond the first (quick) / second (thorough) draw gaps from a 7-entry menu); all single-parenthesis deletions/insertions and 3 trailing-text faults. "
         "N,D = 5,2 (quick) / 6,3 (thorough). non-trivial = a tree with >= 1 atom and >= 1 nested list "
         "or >= 2 atoms")
-ASSUMPTIONS = ["a bare CR that would have to END A COMMENT, Unicode blanks, bare top-level atoms and empty input are outside the alphabet",
+ASSUMPTIONS = ["names with letters outside ASCII are lower-cased by Python's str.lower (no letter whose case mapping changes its length is used)", "a bare CR that would have to END A COMMENT, Unicode blanks, bare top-level atoms and empty input are outside the alphabet",
                "the generating tree is the specification; pv.sexp is cross-checked on every text"]
 CASE_TIMEOUT = 120
 
